@@ -23,7 +23,7 @@ sys.path.insert(0, os.path.join(VERIF, 'gen'))
 import nlgen
 from nlgen import Model, Rng
 
-PROP_MIN_THEOREMS = 36
+PROP_MIN_THEOREMS = 41
 
 # every type except cones / unary-encoding marker: natively accepted in run A
 BASE_ACCEPT = ['LinConRange', 'LinConLE', 'LinConEQ', 'LinConGE',
@@ -897,6 +897,53 @@ def ctx_cases(ck, exe, drv, wd, stats):
     return dis, findings
 
 
+def condeq_nonint_cases(ck, exe, wd, stats):
+    """cond_eq.h negative part on integer bodies with a fractional right-hand side (only reachable with
+    cvt:pre:eqresult=0): exact grid oracle on the delivered model. returns findings"""
+    findings = []
+    acc = ['LinConRange', 'LinConLE', 'LinConEQ', 'LinConGE', 'IndicatorLinConLE', 'IndicatorLinConEQ', 'IndicatorLinConGE']
+    k = 0
+    for rhs in (F(3, 2), F(1, 2), F(2), F(-1, 2)):
+        for form in ('iff', 'notimp'):
+            for opts in (['cvt:pre:eqresult=0'], []):
+                k += 1
+                m = Model()
+                x = m.var(-1, 2, True)
+                b = m.var(0, 1, True)
+                y = m.var(0, 2, True)
+                eq = ('eq', ('+', ('v', x), ('v', y)), ('n', rhs))
+                if form == 'iff':
+                    m.lcon(('iff', ('eq', ('v', b), ('n', 1)), eq))
+                else:
+                    m.lcon(('or', ('eq', ('v', b), ('n', 1)), ('not', eq)))
+                stub = os.path.join(wd, 'e%d' % (k % 4))
+                m.write(stub)
+                r = recsolver.run(exe, stub, options=opts, accept=acc)
+                stats['runs'] += 1
+                if r['rc'] != 0 or not any(e.get('ev') == 'end' for e in r['log']):
+                    continue
+                vs = vars_of(r['log'])
+                cc = compile_delivered([e for e in r['log'] if e.get('ev') == 'con'])
+                if cc is None or len(vs) > 12:
+                    continue
+                grids = [[F(t) for t in range(int(lo), int(hi) + 1)] for lo, hi, ty in vs[3:]]
+                bad = None
+                for xv, yv, bv in itertools.product(range(-1, 3), range(0, 3), range(2)):
+                    orig = [None] * 3
+                    orig[x], orig[b], orig[y] = F(xv), F(bv), F(yv)
+                    fo = m.feasible(orig)
+                    nlx = [orig[j] for j in m.perm]
+                    fd = any(eval_compiled(cc, nlx + list(aux)) for aux in itertools.product(*grids))
+                    stats['oracle_points'] = stats.get('oracle_points', 0) + 1
+                    if fo != fd and bad is None:
+                        bad = {'x': xv, 'y': yv, 'b': bv, 'orig_feasible': fo, 'delivered_feasible': fd}
+                stats['condeq_cases'] = stats.get('condeq_cases', 0) + 1
+                if bad:
+                    findings.append({'kind': 'condeq', 'rhs': str(rhs), 'form': form, 'options': opts, 'point': bad,
+                                     'nl': open(stub + '.nl').read(), 'accept': ','.join(acc)})
+    return findings
+
+
 def report(ck, res):
     """turn the result of run_gadgets into verdicts"""
     pid = getattr(ck, 'pid_real', ck.pid)
@@ -909,6 +956,16 @@ def report(ck, res):
     ck.cov['distinct_nontrivial'] = st.get('compared', 0)
     ck.cov['rule'] = 'one unit = one (generated model, constraint type) pair whose delivered model was compared with the Lean gadget output'
     for f in res.get('findings', []):
+        if f.get('kind') == 'condeq':
+            ck.add_violation('condeq-negctx:int-body-fractional-rhs',
+                             'cond_eq.h negative part uses eps=1 around a fractional right-hand side (%s, options %s): integer point x=%s y=%s b=%s is %s for the NL model but %s for the delivered model'
+                             % (f['rhs'], f['options'], f['point']['x'], f['point']['y'], f['point']['b'],
+                                'feasible' if f['point']['orig_feasible'] else 'infeasible',
+                                'feasible' if f['point']['delivered_feasible'] else 'infeasible'),
+                             {'nl': f['nl'], 'options': f['options'], 'accept': f['accept'], 'point': f['point'],
+                              'how': 'write the nl text to m.nl; RECSOLVER_ACCEPT=<accept> RECSOLVER_LOG=log recsolver m -AMPL <options>; evaluate the logged constraints at the point',
+                              'model_theorem': 'C01_counterexample_condeq_nonint_rhs'}, found_input=True)
+            continue
         ck.add_violation('quadterms-ctx:coef-sign-ignored',
                          'PropagateResult2QuadTerms ignores the coefficient sign: with %s the delivered model (abs linearised in %s context only) admits x=%s z=%s which violates the original constraint'
                          % (f['options'], f['ctx_on_abs'], f['point']['x'], f['point']['z']),
@@ -975,6 +1032,10 @@ def run_gadgets(ck, n_cases=None, proof=True):
     except Exception as ex:
         d2, findings = [{'type': 'ctx', 'why': 'harness exception %r' % (ex,), 'case': 'ctx', 'ops': []}], []
     dis += d2
+    try:
+        findings = findings + condeq_nonint_cases(ck, exe, wd, stats)
+    except Exception as ex:
+        dis.append({'type': 'condeq', 'why': 'harness exception %r' % (ex,), 'case': 'condeq', 'ops': []})
     res['findings'] = findings
     drv.close()
     res['disagreements'] = dis
@@ -982,7 +1043,8 @@ def run_gadgets(ck, n_cases=None, proof=True):
     ck.log('gadget correspondence: %d cases, %d recsolver runs, %d type-steps compared (%d constraint lines), %d refusals, %d disagreements, %.1fs'
            % (n_cases, stats['runs'], stats['compared'], stats['lines'], stats['refusals'], len(dis), time.time() - t0))
     ck.log('  context rule cases: %d, oracle grid points: %d, points feasible for the delivered model but not the original: %d'
-           % (stats.get('ctx_cases', 0), stats.get('oracle_points', 0), len(findings)))
+           % (stats.get('ctx_cases', 0), stats.get('oracle_points', 0), len([f for f in findings if f.get('kind') != 'condeq'])))
+    ck.log('  conditional equality with fractional rhs: %d cases, %d with a point where NL model and delivered model disagree' % (stats.get('condeq_cases', 0), len([f for f in findings if f.get('kind') == 'condeq'])))
     ck.log('  context edges (parent rule vs context stored on the argument definition) checked: %d' % stats.get('ctx_edges', 0))
     ck.log('  hit: ' + ', '.join('%s:%d' % kv for kv in sorted(stats['hit'].items())))
     if stats['unmodelled']:
